@@ -153,6 +153,15 @@ def main(inp, outp):
                 clause("maneuvers are sequenced per contract: each impulse exactly once iff date >= its date, burns over [start, min(date, stop))",
                        close(got, x, n, extra=2e-6 * (np.linalg.norm(x[3:]) + 1.0) * 8), "cw/sequencing",
                        f"{orient} mans {tl['mans']} query {tl['query']}: got {got} expected {x}", data)
+                # the same request repeated through the iterator of the same (initialised) propagator: propagation is pure
+                try:
+                    rep = [np.asarray(o, float) for o in orb.iter(dates=[qd, qd, qd])]
+                    okrep = all(close(g, x, n, extra=2e-6 * (np.linalg.norm(x[3:]) + 1.0) * 8) for g in rep)
+                except Exception as e:
+                    okrep = False
+                    rep = f"{type(e).__name__}: {e}"
+                clause("repeating the request on the same initialised propagator gives the same state (each impulse still exactly once)", okrep,
+                       "cw/sequencing-repeat", f"{orient} mans {tl['mans']} query {tl['query']}: iter(dates=[q,q,q]) gave {rep} expected {x}", data)
                 res["nontrivial"].append(json.dumps([orient, kinds, tl["query"] < 0]))
             # ---- 3. rendezvous helper: announced displacements -------------------------------------------------------------
             h = CWHelper(prop)
